@@ -615,10 +615,18 @@ impl WorkerTree {
         resources: &Resources,
         location: &Path,
     ) -> DarkluaResult<()> {
-        if self.output_structure.is_some()
-            || !resources.exists(location)?
-            || !resources.is_directory(location)?
-        {
+        if self.output_structure.is_some() {
+            return Ok(());
+        }
+
+        if !resources.exists(location)? {
+            // nothing is there yet: every directory will be one that darklua created, which
+            // it removes again once its last output is removed
+            self.output_structure = Some(Default::default());
+            return Ok(());
+        }
+
+        if !resources.is_directory(location)? {
             return Ok(());
         }
 
